@@ -1088,8 +1088,10 @@ class CSSMatch(_DocumentNav):
 
         match = True
         content = None  # type: str | Sequence[str] | None
+        own = None  # type: bool | None
         for contain_list in contains:
-            if content is None:
+            if content is None or own != contain_list.own:
+                own = contain_list.own
                 if contain_list.own:
                     content = self.get_own_text(el, no_iframe=self.is_html)
                 else:
